@@ -16,7 +16,7 @@ SHARDS = {'quick': 4, 'thorough': 16}
 TIMEOUT = {'quick': 300, 'thorough': 3000}
 N_HIST = {'quick': 1500, 'thorough': 120000}
 N_BIG = {'quick': 12, 'thorough': 600}          # scale regime: 500-1200 operations in one world, up to 300 agents
-RULE = ('cases: seeded histories of 40 ops (add / move / move_to / remove / move of an absent agent) for 1-5 agents in SpaceWorld, '
+RULE = ('cases: seeded histories of 40 ops (add / move / move_to / remove / move of an absent agent / second placement of an id already in the world, by the resident object or a newcomer) for 1-5 agents in SpaceWorld, '
         'DiscreteWorld, LineWorld, GridWorld with deliberately unequal extents from {0} u {1..9} (continuous also 1.0, 2.5, 7.125), '
         'wrap on/off; arguments in range, on the boundary (0, inclusive edge) and far out of range (up to 10^9 x extent - in grid worlds also 10^17, 2^60+1, 10^30 x extent: Python ints are exact -, both signs, '
         'multi-lap wraps, mixed clamp directions); exact class (dyadic) 75%, wild floats 25% in continuous worlds. Oracle per '
@@ -198,6 +198,17 @@ def case_history(ctx, case):
             expect_raises(core.ComponentNotFoundError, 'move_to of an agent without position', env.move_to, a, 0, 0, 0)
             ctx.count('absent_agent_ops')
             verify(a, 'after move of absent agent')
+        elif x < 0.06:
+            # placing an agent whose identifier is already in the world (the resident itself, or a newcomer re-using the id) is a
+            # rejected placement: it changes nothing - in particular not where the resident stands
+            pos = [num(k, rng.choice(['in', 'in', 'edge'])) for k in range(3)]
+            twin = a if rng.random() < 0.6 else core.Agent(a.id, model)
+            trace.append(('add-again', a.id, pos, 'same object' if twin is a else 'other object, same id'))
+            expect_raises(core.DuplicateAgentError, f'placing an agent whose id {a.id!r} is already in the world', env.add_agent, twin, *pos)
+            ctx.count('placements_rejected_as_duplicate')
+            if twin is not a and P in twin.components:
+                raise CaseViolation(f'a rejected newcomer (id {a.id!r} taken) was left carrying a position {twin[P].xyz()}', trace=trace[-10:])
+            verify(None, f'after the rejected second placement of {a.id} at {tuple(pos)}')
         elif x < 0.45:
             d = [num(k, rng.choice(['small', 'small', 'far', 'edge'])) if rng.random() < 0.8 else 0 for k in range(3)]
             trace.append(('move', a.id, d))
